@@ -174,7 +174,7 @@ def e2e_pairs(res, tier, seed):
         f.write("[workspace]\nresolver = \"2\"\nmembers = [%s]\n\n[profile.dev]\nopt-level = 0\ndebug = 0\nincremental = false\n" % ", ".join(json.dumps(m) for m in members))
     os.makedirs(os.path.join(root, ".cargo"))
     with open(os.path.join(root, ".cargo", "config.toml"), "w") as f:
-        f.write("[build]\ntarget-dir = %s\n[net]\noffline = true\n" % json.dumps(TARGET))
+        f.write("[net]\noffline = true\n")
     shutil.copy(os.path.join(REPO, "Cargo.lock"), os.path.join(root, "Cargo.lock"))
     t0 = time.time()
     p = subprocess.run(["cargo", "build", "--offline", "--workspace", "--bins", "--keep-going", "--message-format=json"], cwd=root,
